@@ -206,14 +206,13 @@ Print Assumptions C17_lame_rubber.
 
 (* module wrappers (traced): forward() hands every constructor option (mode, sigma, spacing, stride, reduction, p, q,
    elastic constants) to the functional form -- GradLoss incl. q = 0 and q = None -> 1/p, Bending, Curvature, Diffusion,
-   Divergence, TotalVariation, BSplineBending.
-   PARTIAL: Elasticity is excluded: its __init__ does not forward `stride` (reported from the implementation side as
-   C17:Elasticity.forward:option-not-passed); the full statement is `forallb (fun p => snd p =? "ok") table = true`. *)
-Theorem C17_module_options_partial :
+   Divergence, TotalVariation, Elasticity (three ways of giving the material), BSplineBending *)
+Theorem C17_module_options :
   forallb row_ok gen_flow_module_options = true /\ (13 <= List.length gen_flow_module_options)%nat /\
-  existsb (fun p => String.eqb (fst p) "GradLoss(p=4, q=0)" && String.eqb (snd p) "ok") gen_flow_module_options = true.
-Proof. exact flow_module_options_partial. Qed.
-Print Assumptions C17_module_options_partial.
+  existsb (fun p => String.eqb (fst p) "GradLoss(p=4, q=0)") gen_flow_module_options = true /\
+  existsb (fun p => String.prefix "Elasticity" (fst p)) gen_flow_module_options = true.
+Proof. exact flow_module_options_ok. Qed.
+Print Assumptions C17_module_options.
 
 (* ================= 5. inverse consistency: units ====================================================== *)
 (* an exact inverse pair (zero error) reports zero in every unit; denormalize_flow applies (n-1)/2 with
